@@ -104,6 +104,14 @@ ImplSetOffset(st, k, o) ==
 \* the public advance_to(position): positions are relative to the whole input
 ImplAdvance(st, k, p) == AdvanceRel(st, k, IF FixAdvance THEN (IF p >= st.off THEN p - st.off ELSE 0) ELSE p)
 
+\* offset(): documented as "the end offset of the last match"; what the code returns is the byte
+\* offset of the START of the last character consumed (last_position + offset).  Not part of any
+\* listed property; modelled as the code behaves and bound by the MODEL-DRIFT leg (Trace_Iter).
+ImplOffsetFn(st) == st.lastpos + st.off
+\* the value advance_to(p) returns: the same quantity after the call (documented as "the new
+\* position in the haystack")
+ImplAdvanceRet(st, k, p) == ImplOffsetFn(ImplAdvance(st, k, p))
+
 \* position(o): binary search in line_offsets
 ImplPos(st, o) ==
   IF o \in st.lines THEN << Cardinality({ x \in st.lines : x <= o }), 1 >>
